@@ -669,3 +669,18 @@ Definition c08_run (toks : list (list N)) : list (list N) :=
     end
   | _ => REJECT_TOK
   end.
+
+(* ---------------- C17 ---------------- *)
+From TT Require Import Model.Forwarded.
+
+(* in: [mode; n] body_stream seg_sizes accepts    mode 0 close-delimited | 1 Content-Length n | 2 chunked
+   out: [end: 0 complete | 1 more expected | 2 error] delivered *)
+Definition c17_body (toks : list (list N)) : list (list N) :=
+  match toks with
+  | [mode; n] :: stream :: sizes :: accs :: _ =>
+    let st0 := if mode =? 0 then BNon None 0
+               else if mode =? 1 then BNon (Some (N.to_nat n)) 0 else BPrefix [] in
+    let '(st, out) := drive psize_c st0 (c08_split stream sizes) (map N.to_nat accs) [] in
+    [[match st with BDone => 0 | BErr => 2 | _ => 1 end]; out]
+  | _ => REJECT_TOK
+  end.
